@@ -374,7 +374,7 @@ Definition check_encoder_final_from (c0 : ecache) (U : provider) (P : problem) (
   | Some (st, _) =>
       let tr := final_trail [] evs in
       (req_true_ok [] evs, lits_eqb (rev tr) trail,
-       enc_final_ok U st (sel_of tr) (exempt P (sel_of tr)))
+       enc_final_ok U st (sel_of tr) (exempt U P (sel_of tr)))
   | None => (false, false, false)
   end.
 Definition check_encoder_final := check_encoder_final_from cache0.
